@@ -23,7 +23,7 @@ Cases ==
             r \in Runners, a \in Offsets \ {-1}, k \in 1..Reps }
   \* many cancellations spread over a run that is almost always inside a trap
   \cup { [runner |-> "ptrace-ban", prog |-> "sleep", at |-> a, nfiles |-> 3, destroy |-> FALSE, frozen |-> FALSE, rep |-> 200 + k] :
-            a \in {5, 7, 11, 13, 17, 19, 23, 29}, k \in 1..(2 * Reps) }
+            a \in {5, 7, 11, 13, 17, 19, 23, 29, 45, 70, 110, 160}, k \in 1..(2 * Reps) }     \* (late instants: a loaded machine starts slowly)
   \cup { [runner |-> "ptrace-trap", prog |-> "sleep", at |-> a, nfiles |-> 3, destroy |-> FALSE, frozen |-> FALSE, rep |-> 400 + k] :
             a \in {5, 7, 9, 11, 13, 21, 34, 55, 89, 144}, k \in 1..(3 * Reps) }      \* (late instants: a loaded machine starts slowly)
   \* a program whose descendants ignore signals and leave its session / process group: all of them must be
